@@ -287,11 +287,49 @@ fn interleaved(seed: u64, rounds: usize, rep: &mut Report) {
             let v = format!("{:?}", lex.select(&pop, &mut r).map(|i| i.genome.clone()).map_err(|e| e.to_string()));
             (v, r.fingerprint())
         };
+        // the call in the middle is, in turn, an ordinary one, one on an empty population, and one
+        // that fails part-way (individuals with fewer results than lexicase looks at; the last
+        // individual only, so the failure comes after some work was done): neither the success nor
+        // the failure of another call may leave anything behind in the operator value
+        let mid_l = |s: u64| -> (String, vh_core::trace_rng::Fingerprint) {
+            let mut r = TraceRng::new(s);
+            let other: Vec<BitInd> = match k % 4 {
+                0 => return run_l(s),
+                1 => Vec::new(),
+                2 => pop.iter().map(|i| EcIndividual::new(i.genome.clone(), i.test_results.results.iter().take(1).copied().collect())).collect(),
+                _ => {
+                    let mut p = pop.clone();
+                    if let Some(last) = p.last_mut() {
+                        *last = EcIndividual::new(last.genome.clone(), last.test_results.results.iter().take(2).copied().collect());
+                    }
+                    p
+                }
+            };
+            let v = format!("{:?}", lex.select(&other, &mut r).map(|i| i.genome.clone()).map_err(|e| e.to_string()));
+            (v, r.fingerprint())
+        };
+        let mid_a = |s: u64| -> (String, vh_core::trace_rng::Fingerprint) {
+            if k % 2 == 0 {
+                return run_a(s);
+            }
+            let mut r = TraceRng::new(s);
+            let other: Vec<BitInd> = pop.iter().take(k % 2).cloned().collect();
+            let v = format!("{:?}", op_a.apply(&other, &mut r).map_err(|e| e.to_string()));
+            (v, r.fingerprint())
+        };
+        let mid_u = |s: u64| -> (String, vh_core::trace_rng::Fingerprint) {
+            if k % 2 == 0 {
+                return run_u(s);
+            }
+            let mut r = TraceRng::new(s);
+            let v = format!("{:?}", umad.mutate(Vector::<u8>::from_iter(std::iter::empty()), &mut r));
+            (v, r.fingerprint())
+        };
         for (name, first, _mid, third) in [
-            ("pipeline", run_a(s1), run_a(s2), run_a(s1)),
-            ("Umad", run_u(s1), run_u(s2), run_u(s1)),
+            ("pipeline", run_a(s1), mid_a(s2), run_a(s1)),
+            ("Umad", run_u(s1), mid_u(s2), run_u(s1)),
             ("GeneGenerator", run_g(s1), run_g(s2), run_g(s1)),
-            ("Lexicase", run_l(s1), run_l(s2), run_l(s1)),
+            ("Lexicase", run_l(s1), mid_l(s2), run_l(s1)),
         ] {
             rep.eval();
             rep.count("interleaved-histories");
